@@ -145,24 +145,31 @@ def _user_setstate(self, state):
         object.__setattr__(self, CACHE, None)
 
 
-def _decorate(spec, cls):
+def _api(spec):
     api = spec.get("api", "attr.s")
+    return "define" if api == "frozen" and not spec["frozen"] else api      # attrs.frozen only for frozen specs
+
+
+def _deco_kwargs(spec):
+    """keyword arguments for the front-end named by the harness-only keys `api` (attr.s | define | frozen) and
+    `front` (class | these | make_class; attr.s only)"""
+    api = _api(spec)
     explicit = spec.get("explicit", True)
     kw = {}
     if api == "attr.s":
-        deco = attr.s
         defaults = {"slots": False, "frozen": False, "auto_detect": False, "collect_by_mro": False,
                     "cache_hash": False, "weakref_slot": True, "eq": True}
         kw["collect_by_mro"] = spec["collectByMro"]
     else:
-        deco = attrs.define
-        defaults = {"slots": True, "frozen": False, "auto_detect": True, "cache_hash": False,
+        defaults = {"slots": True, "frozen": api == "frozen", "auto_detect": True, "cache_hash": False,
                     "weakref_slot": True, "eq": True}
     want = {"slots": spec["slots"], "frozen": spec["frozen"], "auto_detect": spec["autoDetect"],
             "cache_hash": spec["cacheHash"], "weakref_slot": spec["weakrefSlot"], "eq": spec["eq"]}
     for k, v in want.items():
         if explicit or defaults[k] != v:
             kw[k] = v
+    if api == "frozen":
+        kw.pop("frozen", None)
     if spec["unsafeHash"]:
         kw["unsafe_hash" if spec.get("hashKw", "unsafe_hash") == "unsafe_hash" else "hash"] = True
     if spec["gs"] == "t":
@@ -171,32 +178,64 @@ def _decorate(spec, cls):
         kw["getstate_setstate"] = False
     elif spec.get("gsExplicitNone"):
         kw["getstate_setstate"] = None
-    return deco(**kw)(cls)
+    return kw
+
+
+def _is_nested(spec):
+    return bool(spec.get("nested")) and not (spec["kind"] == "attrs" and spec.get("front") == "make_class" and _api(spec) == "attr.s")
+
+
+def class_source(i, spec, base="object"):
+    """source text that defines class `C<i>` below `C<i-1>`; it is exec'd *inside* the synthetic module, so that
+    `__module__` / `__qualname__` — what pickle needs to find the class again — come about the way they do for a
+    user (class statement, or `make_class` reading its caller's `__name__`), never by assignment from the harness"""
+    name = f"C{i}"
+    body = []
+    if spec["userGS"]:
+        body += ["__getstate__ = _user_getstate", "__setstate__ = _user_setstate"]
+    if spec["kind"] == "plain":
+        if spec["slots"]:
+            body.append(f"__slots__ = {tuple(spec['plainSlots'])!r}")
+        return f"class {name}({base}):\n" + "".join(f"    {ln}\n" for ln in body or ["pass"])
+    fields = [(f["name"], "attr.ib()" if f["init"] else "attr.ib(init=False)") for f in spec["fields"]]
+    api, front = _api(spec), spec.get("front", "class")
+    deco = {"attr.s": "attr.s", "define": "attrs.define", "frozen": "attrs.frozen"}[api]
+    if api == "attr.s" and front == "make_class":
+        cb = "{'__getstate__': _user_getstate, '__setstate__': _user_setstate}" if spec["userGS"] else "None"
+        items = ", ".join(f"{n!r}: {src}" for n, src in fields)
+        return (f"def _make_{name}():\n"
+                f"    return attr.make_class({name!r}, {{{items}}}, bases=({base},), class_body={cb}, **_kw{i})\n"
+                f"{name} = _make_{name}()\n")
+    if api == "attr.s" and front == "these":
+        items = ", ".join(f"{n!r}: {src}" for n, src in fields)
+        return (f"class {name}({base}):\n" + "".join(f"    {ln}\n" for ln in body or ["pass"])
+                + f"{name} = attr.s(these={{{items}}}, **_kw{i})({name})\n")
+    body += [f"{n} = {src}" for n, src in fields]
+    return (f"@{deco}(**_kw{i})\nclass {name}({base}):\n" + "".join(f"    {ln}\n" for ln in body or ["pass"]))
+
+
+def nested_source(i, spec, base="object"):
+    """harness-only `nested`: the class statement sits in the body of a namespace class, so `__qualname__` is dotted
+    (and the class is reachable only through that path: no module-level alias)"""
+    src = class_source(i, spec, base)
+    if not _is_nested(spec):
+        return src
+    return f"class NS{i}:\n" + "".join("    " + ln + "\n" for ln in src.splitlines())
 
 
 def build_chain(chain, modname):
-    """create the classes of the chain inside module `modname`; returns (module, [classes])"""
+    """create the classes of the chain by running their source inside module `modname`; returns (module, [classes])"""
     mod = types.ModuleType(modname)
+    ns = mod.__dict__
+    ns.update(attr=attr, attrs=attrs, _user_getstate=_user_getstate, _user_setstate=_user_setstate)
     classes = []
-    base = object
+    base = "object"
     for i, spec in enumerate(chain):
-        name = f"C{i}"
-        body = {"__module__": modname, "__qualname__": name}
-        if spec["kind"] == "plain":
-            if spec["slots"]:
-                body["__slots__"] = tuple(spec["plainSlots"])
-        else:
-            for f in spec["fields"]:
-                body[f["name"]] = attr.ib() if f["init"] else attr.ib(init=False)
-        if spec["userGS"]:
-            body["__getstate__"] = _user_getstate
-            body["__setstate__"] = _user_setstate
-        cls = types.new_class(name, (base,), {}, lambda ns, body=body: ns.update(body))
         if spec["kind"] == "attrs":
-            cls = _decorate(spec, cls)
-        setattr(mod, name, cls)
-        classes.append(cls)
-        base = cls
+            ns[f"_kw{i}"] = _deco_kwargs(spec)
+        exec(compile(nested_source(i, spec, base), f"<c10 synthetic {modname}>", "exec"), ns)
+        base = f"NS{i}.C{i}" if _is_nested(spec) else f"C{i}"
+        classes.append(getattr(ns[f"NS{i}"], f"C{i}") if _is_nested(spec) else ns[f"C{i}"])
     return mod, classes
 
 
